@@ -103,6 +103,7 @@ func propC04(g *G, n int) {
 		emit(0, "Max", a)
 		emit(0, "Decimal.IsZero", a[:1])
 		emit(0, "Decimal.Sign", a[:1])
+		apiCall(0, "api.CmpFlags", a)
 		if i%8 == 0 {
 			// every cohort member of x against every cohort member of y
 			cx, cy := cohort(x), cohort(y)
